@@ -11,7 +11,7 @@
 From Coq Require Import ZArith List Bool Ascii String Lia.
 From Hermes Require Import Num DateModel CropParamModel.
 Import ListNotations.
-Open Scope Z_scope.
+Local Open Scope Z_scope.
 
 Inductive pname :=
   | MAXAMAX_ | MINTMP_ | WUMAXPF_ | VELOC_ | YIFAK_ | INITCONCNBIOM_ | INITCONCNROOT_
@@ -111,7 +111,7 @@ Section Model.
   Definition stage_ok (ne : Z) (p : pname) (i : Z) (v : T) : bool :=
     (1 <=? i) && (i <=? ne) &&
     match p with
-    | TSUM_ => nlt v zero && ngt v (ofZ 10000)
+    | TSUM_ => nle v zero && ngt v (ofZ 10000)          (* :220 value <= 0 || value > 10000 (F29) *)
     | BAS_ => nlt v (ofZ (-10)) && ngt v (ofZ 40)
     | VSCHWELL_ => nlt v zero && ngt v (ofZ 100)
     | DAYL_ | DLBAS_ => nlt v (ofZ (-24)) && ngt v (ofZ 24)
